@@ -91,6 +91,9 @@ structure TokOK (input : Array UInt8) (start : Nat) (t : Tok) (stop : Nat) : Pro
       ((start + 4 ≤ stop ∧ peekAt input (stop - 2) = 42 ∧ peekAt input (stop - 1) = 47) ∨ peekAt input stop = 0)
   /-- illegal byte: one byte, literal = Go's `string(byte)` -/
   ill : t.src = .intern → t.type = ILLEGAL → stop = start + 1 ∧ t.lit = stringOfByte (peekAt input start)
+  /-- identifiers, keywords and numbers contain no newline byte -/
+  nonl : (t.src = .lookup ∨ (t.src = .intern ∧ (t.type = INT ∨ t.type = FLOAT))) →
+    ∀ i, start ≤ i → i < stop → peekAt input i ≠ 10
 
 theorem TokOK.c1 {input : Array UInt8} {start : Nat} {ch : UInt8} (hch : peekAt input start = ch)
     (hk : (cTokens.lookup ch).isSome = true) : TokOK input start (constantTokenChar ch) (start + 1) := by
@@ -101,9 +104,9 @@ theorem TokOK.c1 {input : Array UInt8} {start : Nat} {ch : UInt8} (hch : peekAt 
   have e : constantTokenChar ch = { type := ty, lit := [ch], src := .char1 } := by
     unfold constantTokenChar; rw [hty]
   rw [e]
-  refine ⟨by omega, by omega, ⟨ch, rfl, hty⟩, by simp, fun _ => ?_, ?_, ?_, ?_, ?_⟩
+  refine ⟨by omega, by omega, ⟨ch, rfl, hty⟩, by simp, fun _ => ?_, ?_, ?_, ?_, ?_, ?_⟩
   · rw [spanL_one hlt, hch]
-  all_goals (intro h; cases h)
+  all_goals first | (intro h; rcases h with h | ⟨h, _⟩ <;> cases h) | (intro h; cases h)
 
 theorem TokOK.c2 {input : Array UInt8} {start : Nat} {a b : UInt8} (ha : peekAt input start = a)
     (hb : peekAt input (start + 1) = b) (hb0 : b ≠ 0)
@@ -113,13 +116,14 @@ theorem TokOK.c2 {input : Array UInt8} {start : Nat} {a b : UInt8} (ha : peekAt 
   have e : constantTokenChar2 a b = { type := ty, lit := [a, b], src := .char2 } := by
     unfold constantTokenChar2; rw [hty]
   rw [e]
-  refine ⟨by omega, by omega, ⟨a, b, rfl, hty⟩, by simp, fun _ => ?_, ?_, ?_, ?_, ?_⟩
+  refine ⟨by omega, by omega, ⟨a, b, rfl, hty⟩, by simp, fun _ => ?_, ?_, ?_, ?_, ?_, ?_⟩
   · rw [spanL_two hlt, ha, hb]
-  all_goals (intro h; cases h)
+  all_goals first | (intro h; rcases h with h | ⟨h, _⟩ <;> cases h) | (intro h; cases h)
 
 /-! ### the readers called by `next` -/
 
-theorem readIdentifier_ok (s : State) (start : Nat) (hs : s.pos = start + 1) (hlt : start < s.input.size) :
+theorem readIdentifier_ok (s : State) (start : Nat) (hs : s.pos = start + 1) (hlt : start < s.input.size)
+    (h0 : peekAt s.input start ≠ 10) :
     TokOK s.input start (tokOfSlice lookupIdent (readIdentifier s).1) (readIdentifier s).2.pos
     ∧ (readIdentifier s).2 = { s with pos := (readIdentifier s).2.pos } := by
   have sc := scanWhile_spec isAlphaNum (by decide) s.input s.pos (by omega)
@@ -129,8 +133,16 @@ theorem readIdentifier_ok (s : State) (start : Nat) (hs : s.pos = start + 1) (hl
   have e : s.pos - 1 = start := by omega
   rw [e]
   refine ⟨⟨by have := sc.ge; omega, sc.le, lookupIdent_wf _, by simp [tokOfSlice, lookupIdent_src],
-    fun _ => by simp [tokOfSlice, lookupIdent_lit], ?_, ?_, ?_, ?_⟩, trivial⟩
-  all_goals (intro h; simp [tokOfSlice, lookupIdent_src] at h)
+    fun _ => by simp [tokOfSlice, lookupIdent_lit], ?_, ?_, ?_, ?_, ?_⟩, trivial⟩
+  · intro h; simp [tokOfSlice, lookupIdent_src] at h
+  · intro h; simp [tokOfSlice, lookupIdent_src] at h
+  · intro h; simp [tokOfSlice, lookupIdent_src] at h
+  · intro h; simp [tokOfSlice, lookupIdent_src] at h
+  · intro _ i hi1 hi2
+    by_cases hi : i = start
+    · rw [hi]; exact h0
+    · have := sc.all i (by omega) hi2
+      intro h10; rw [h10] at this; revert this; decide
 
 theorem readLineComment_ok (s : State) (start : Nat) (hs : s.pos = start + 1) (h0 : peekAt s.input start = 47)
     (h1 : peekAt s.input (start + 1) = 47) :
@@ -146,7 +158,8 @@ theorem readLineComment_ok (s : State) (start : Nat) (hs : s.pos = start + 1) (h
   refine ⟨⟨by have := sc.ge; omega, sc.le, by simp [tokOfSlice, internTok, Tok.WF], by simp [tokOfSlice, internTok],
     fun h => by simp [tokOfSlice, internTok] at h, fun _ h => by simp [tokOfSlice, internTok] at h,
     fun _ _ => ⟨by simp [tokOfSlice, internTok], h0, h1, fun i a b => sc.all i (by omega) b, sc.stop⟩,
-    fun _ h => by simp [tokOfSlice, internTok] at h, fun _ h => by simp [tokOfSlice, internTok] at h⟩, trivial⟩
+    fun _ h => by simp [tokOfSlice, internTok] at h, fun _ h => by simp [tokOfSlice, internTok] at h,
+    fun h => by simp [tokOfSlice, internTok] at h⟩, trivial⟩
 
 theorem readBlockComment_ok (s : State) (start : Nat) (hs : s.pos = start + 1) (h0 : peekAt s.input start = 47)
     (h1 : peekAt s.input (start + 1) = 42) :
@@ -173,7 +186,8 @@ theorem readBlockComment_ok (s : State) (start : Nat) (hs : s.pos = start + 1) (
     refine ⟨⟨by omega, hle, by simp [tokOfSlice, internTok, Tok.WF], by simp [tokOfSlice, internTok],
       fun _ => by simp [tokOfSlice, internTok], fun _ h => by simp [tokOfSlice, internTok] at h,
       fun _ h => by simp [tokOfSlice, internTok] at h,
-      fun _ _ => ⟨h0, h1, Or.inr hz⟩, fun _ h => by simp [tokOfSlice, internTok] at h⟩, trivial⟩
+      fun _ _ => ⟨h0, h1, Or.inr hz⟩, fun _ h => by simp [tokOfSlice, internTok] at h,
+      fun h => by simp [tokOfSlice, internTok] at h⟩, trivial⟩
   · simp only [c, Bool.false_eq_true, ↓reduceIte]
     have c0 : r.1 ≠ 0 := by simpa using c
     obtain ⟨hs42, hs47⟩ : r.1 = 42 ∧ peekAt s.input r.2 = 47 := by
@@ -185,7 +199,8 @@ theorem readBlockComment_ok (s : State) (start : Nat) (hs : s.pos = start + 1) (
     refine ⟨⟨by omega, by omega, by simp [tokOfSlice, internTok, Tok.WF], by simp [tokOfSlice, internTok],
       fun _ => by simp [tokOfSlice, internTok], fun _ h => by simp [tokOfSlice, internTok] at h,
       fun _ h => by simp [tokOfSlice, internTok] at h,
-      fun _ _ => ⟨h0, h1, Or.inl ⟨by omega, ?_, ?_⟩⟩, fun _ h => by simp [tokOfSlice, internTok] at h⟩, trivial⟩
+      fun _ _ => ⟨h0, h1, Or.inl ⟨by omega, ?_, ?_⟩⟩, fun _ h => by simp [tokOfSlice, internTok] at h,
+      fun h => by simp [tokOfSlice, internTok] at h⟩, trivial⟩
     · have : r.2 + 1 - 2 = r.2 - 1 := by omega
       rw [this, ← bl.ch]; exact hs42
     · have : r.2 + 1 - 1 = r.2 := by omega
@@ -196,13 +211,15 @@ theorem readBlockComment_ok (s : State) (start : Nat) (hs : s.pos = start + 1) (
 def NumSpec (s : State) (start : Nat) (r : TType × Option Bytes × State) : Prop :=
   (r.1 = INT ∨ r.1 = FLOAT) ∧ r.2.1 = some (spanL s.input start r.2.2.pos) ∧ start + 1 ≤ r.2.2.pos
     ∧ r.2.2.pos ≤ s.input.size ∧ r.2.2 = { s with pos := r.2.2.pos }
+    ∧ ∀ i, s.pos ≤ i → i < r.2.2.pos → peekAt s.input i ≠ 10
 
 theorem num_leaf {s : State} {start : Nat} (hs : s.pos = start + 1) (t : TType) (P : Nat)
-    (ht : t = INT ∨ t = FLOAT) (h1 : start + 1 ≤ P) (h2 : P ≤ s.input.size) :
+    (ht : t = INT ∨ t = FLOAT) (h1 : start + 1 ≤ P) (h2 : P ≤ s.input.size)
+    (h3 : ∀ i, s.pos ≤ i → i < P → peekAt s.input i ≠ 10) :
     NumSpec s start (t, slice? s.input (s.pos - 1) P, { s with pos := P }) := by
   have e : s.pos - 1 = start := by omega
   rw [e, slice?_eq (by omega) h2]
-  exact ⟨ht, rfl, h1, h2, rfl⟩
+  exact ⟨ht, rfl, h1, h2, rfl, h3⟩
 
 theorem ite_int_float (c : Prop) [Decidable c] : (if c then FLOAT else INT) = INT ∨ (if c then FLOAT else INT) = FLOAT := by
   split <;> simp
@@ -212,40 +229,68 @@ theorem readNumber_spec (s : State) (ch : UInt8) (start : Nat) (hs : s.pos = sta
   have scan : ∀ (p : UInt8 → Bool), p 0 = false → ∀ pos, pos ≤ s.input.size →
       pos ≤ scanWhile p s.input pos ∧ scanWhile p s.input pos ≤ s.input.size :=
     fun p hp pos h => ⟨(scanWhile_spec p hp s.input pos h).ge, (scanWhile_spec p hp s.input pos h).le⟩
+  -- scanned bytes are not newlines
+  have nl : ∀ (p : UInt8 → Bool), p 0 = false → p 10 = false → ∀ pos, pos ≤ s.input.size →
+      ∀ i, pos ≤ i → i < scanWhile p s.input pos → peekAt s.input i ≠ 10 :=
+    fun p hp h10 pos h i hi1 hi2 heq => by
+      have := (scanWhile_spec p hp s.input pos h).all i hi1 hi2
+      rw [heq, h10] at this; cases this
   have nz : ∀ pos (c : UInt8), c ≠ 0 → (peekAt s.input pos == c) = true → pos < s.input.size :=
     fun pos c hc h => lt_size_of_peekAt_ne_zero (by rw [beq_iff_eq.mp h]; exact hc)
+  have ne10 : ∀ pos (c : UInt8), c ≠ 10 → (peekAt s.input pos == c) = true → peekAt s.input pos ≠ 10 :=
+    fun pos c hc h => by rw [beq_iff_eq.mp h]; exact hc
   unfold readNumber
   simp only [State.peekChar]
   by_cases c1 : (ch == 48 && peekAt s.input s.pos == 120) = true
   · simp only [c1, ↓reduceIte]
-    have := nz s.pos 120 (by decide) (by simp at c1; simp [c1.2])
+    have hx : (peekAt s.input s.pos == 120) = true := by simp at c1; simp [c1.2]
+    have := nz s.pos 120 (by decide) hx
     have := scan isHexDigit (by decide) (s.pos + 1) (by omega)
-    exact num_leaf hs _ _ (ite_int_float _) (by omega) (by omega)
+    refine num_leaf hs _ _ (ite_int_float _) (by omega) (by omega) ?_
+    intro i hi1 hi2
+    by_cases hi : i = s.pos
+    · rw [hi]; exact ne10 _ 120 (by decide) hx
+    · exact nl isHexDigit (by decide) (by decide) (s.pos + 1) (by omega) i (by omega) hi2
   · simp only [c1, Bool.false_eq_true, ↓reduceIte]
     by_cases c2 : (ch == 48 && peekAt s.input s.pos == 98) = true
     · simp only [c2, ↓reduceIte]
-      have := nz s.pos 98 (by decide) (by simp at c2; simp [c2.2])
+      have hx : (peekAt s.input s.pos == 98) = true := by simp at c2; simp [c2.2]
+      have := nz s.pos 98 (by decide) hx
       have := scan isBinaryDigit (by decide) (s.pos + 1) (by omega)
-      exact num_leaf hs _ _ (ite_int_float _) (by omega) (by omega)
+      refine num_leaf hs _ _ (ite_int_float _) (by omega) (by omega) ?_
+      intro i hi1 hi2
+      by_cases hi : i = s.pos
+      · rw [hi]; exact ne10 _ 98 (by decide) hx
+      · exact nl isBinaryDigit (by decide) (by decide) (s.pos + 1) (by omega) i (by omega) hi2
     · simp only [c2, Bool.false_eq_true, ↓reduceIte]
       have b1 := scan isDigitOrUnderscore (by decide) s.pos (by omega)
+      have a1 := nl isDigitOrUnderscore (by decide) (by decide) s.pos (by omega)
       obtain ⟨p1, hp1⟩ : ∃ p1, scanWhile isDigitOrUnderscore s.input s.pos = p1 := ⟨_, rfl⟩
-      simp only [hp1] at b1 ⊢
+      simp only [hp1] at b1 a1 ⊢
       by_cases c3 : (peekAt s.input p1 == 46 && ch == 46) = true
       · simp only [c3, ↓reduceIte]
-        exact num_leaf hs _ _ (ite_int_float _) (by omega) (by omega)
+        exact num_leaf hs _ _ (ite_int_float _) (by omega) (by omega) a1
       · simp only [c3, Bool.false_eq_true, ↓reduceIte]
         -- fractional part
-        obtain ⟨p2, hp2, b2⟩ : ∃ p2, (if (peekAt s.input p1 == 46) = true then scanWhile isDigitOrUnderscore s.input (p1 + 1) else p1) = p2
-            ∧ p1 ≤ p2 ∧ p2 ≤ s.input.size := by
+        obtain ⟨p2, hp2, b2, a2⟩ : ∃ p2, (if (peekAt s.input p1 == 46) = true then scanWhile isDigitOrUnderscore s.input (p1 + 1) else p1) = p2
+            ∧ (p1 ≤ p2 ∧ p2 ≤ s.input.size) ∧ ∀ i, p1 ≤ i → i < p2 → peekAt s.input i ≠ 10 := by
           refine ⟨_, rfl, ?_⟩
           split
           · rename_i hd
             have := nz p1 46 (by decide) hd
             have := scan isDigitOrUnderscore (by decide) (p1 + 1) (by omega)
-            omega
-          · omega
+            refine ⟨by omega, ?_⟩
+            intro i hi1 hi2
+            by_cases hi : i = p1
+            · rw [hi]; exact ne10 _ 46 (by decide) hd
+            · exact nl isDigitOrUnderscore (by decide) (by decide) (p1 + 1) (by omega) i (by omega) hi2
+          · exact ⟨by omega, fun i h1 h2 => by omega⟩
         simp only [hp2]
+        have a12 : ∀ i, s.pos ≤ i → i < p2 → peekAt s.input i ≠ 10 := by
+          intro i hi1 hi2
+          by_cases hi : i < p1
+          · exact a1 i hi1 hi
+          · exact a2 i (by omega) hi2
         have ht1 : ∀ t0 : TType, (t0 = INT ∨ t0 = FLOAT) →
             ((if (peekAt s.input p1 == 46) = true then FLOAT else t0) = INT
               ∨ (if (peekAt s.input p1 == 46) = true then FLOAT else t0) = FLOAT) := by
@@ -254,32 +299,60 @@ theorem readNumber_spec (s : State) (ch : UInt8) (start : Nat) (hs : s.pos = sta
           · exact h
         by_cases c4 : (peekAt s.input p2 != 101 && peekAt s.input p2 != 69) = true
         · simp only [c4, ↓reduceIte]
-          exact num_leaf hs _ _ (ht1 _ (ite_int_float _)) (by omega) (by omega)
+          exact num_leaf hs _ _ (ht1 _ (ite_int_float _)) (by omega) (by omega) a12
         · simp only [c4, Bool.false_eq_true, ↓reduceIte]
+          have he : peekAt s.input p2 ≠ 10 := by
+            intro h10; rw [h10] at c4; exact c4 (by decide)
           have ht2 := ht1 _ (ite_int_float ((ch == 46) = true))
           split
-          · exact num_leaf hs _ p2 ht2 (by omega) (by omega)
-          · obtain ⟨p4, hp4⟩ : ∃ p4, (if (peekAt s.input (p2 + 1) == 43 || peekAt s.input (p2 + 1) == 45) = true then p2 + 1 + 1 else p2 + 1) = p4 := ⟨_, rfl⟩
+          · exact num_leaf hs _ p2 ht2 (by omega) (by omega) a12
+          · obtain ⟨p4, hp4, hp4b, a4⟩ : ∃ p4, (if (peekAt s.input (p2 + 1) == 43 || peekAt s.input (p2 + 1) == 45) = true then p2 + 1 + 1 else p2 + 1) = p4
+                ∧ p2 + 1 ≤ p4 ∧ ∀ i, p2 + 1 ≤ i → i < p4 → peekAt s.input i ≠ 10 := by
+              refine ⟨_, rfl, ?_⟩
+              split
+              · rename_i hsg
+                refine ⟨by omega, ?_⟩
+                intro i hi1 hi2
+                have hi : i = p2 + 1 := by omega
+                rw [hi]
+                simp only [Bool.or_eq_true] at hsg
+                rcases hsg with h | h
+                · exact ne10 _ 43 (by decide) h
+                · exact ne10 _ 45 (by decide) h
+              · exact ⟨by omega, fun i h1 h2 => by omega⟩
             simp only [hp4]
-            have hp4b : p2 + 1 ≤ p4 := by rw [← hp4]; split <;> omega
             split
-            · exact num_leaf hs _ p2 ht2 (by omega) (by omega)
+            · exact num_leaf hs _ p2 ht2 (by omega) (by omega) a12
             · rename_i hd
               have hdig : isDigit (peekAt s.input p4) = true := by simpa using hd
               have : p4 < s.input.size := lt_size_of_peekAt_ne_zero (fun h0 => by rw [h0] at hdig; revert hdig; decide)
               have := scan isDigitOrUnderscore (by decide) p4 (by omega)
-              exact num_leaf hs _ _ (Or.inr rfl) (by omega) (by omega)
+              refine num_leaf hs _ _ (Or.inr rfl) (by omega) (by omega) ?_
+              intro i hi1 hi2
+              by_cases h1 : i < p2
+              · exact a12 i hi1 h1
+              · by_cases h2 : i = p2
+                · rw [h2]; exact he
+                · by_cases h3 : i < p4
+                  · exact a4 i (by omega) h3
+                  · exact nl isDigitOrUnderscore (by decide) (by decide) p4 (by omega) i (by omega) hi2
 
-theorem readNumber_ok (s : State) (ch : UInt8) (start : Nat) (hs : s.pos = start + 1) (hlt : start < s.input.size) :
+theorem readNumber_ok (s : State) (ch : UInt8) (start : Nat) (hs : s.pos = start + 1) (hlt : start < s.input.size)
+    (h0 : peekAt s.input start ≠ 10) :
     TokOK s.input start (tokOfSlice (internTok (readNumber s ch).1) (readNumber s ch).2.1) (readNumber s ch).2.2.pos
     ∧ (readNumber s ch).2.2 = { s with pos := (readNumber s ch).2.2.pos } := by
-  obtain ⟨ht, hl, h1, h2, h3⟩ := readNumber_spec s ch start hs hlt
+  obtain ⟨ht, hl, h1, h2, h3, h4⟩ := readNumber_spec s ch start hs hlt
   rw [hl]
   refine ⟨⟨by omega, h2, ?_, by simp [tokOfSlice, internTok], fun _ => by simp [tokOfSlice, internTok],
-    ?_, ?_, ?_, ?_⟩, h3⟩
+    ?_, ?_, ?_, ?_, ?_⟩, h3⟩
   · cases ht with
     | inl h => simp [tokOfSlice, internTok, Tok.WF, h]
     | inr h => simp [tokOfSlice, internTok, Tok.WF, h]
+  rotate_left 4
+  · intro _ i hi1 hi2
+    by_cases hi : i = start
+    · rw [hi]; exact h0
+    · exact h4 i (by omega) hi2
   all_goals
     intro _ h
     simp only [tokOfSlice, internTok] at h
@@ -338,7 +411,8 @@ theorem core_string (s1 : State) (q : UInt8) (hq : peekAt s1.input s1.pos = q) (
     show TokOK s1.input s1.pos (internTok STRING r.1) r.2.2.pos
     exact ⟨by omega, h2, by simp [internTok, Tok.WF], by simp [internTok],
       fun h => by simp [internTok] at h, fun _ _ => ⟨by omega, by rw [hq]; exact hq2, by rw [h3, hq]⟩,
-      fun _ h => by simp [internTok] at h, fun _ h => by simp [internTok] at h, fun _ h => by simp [internTok] at h⟩
+      fun _ h => by simp [internTok] at h, fun _ h => by simp [internTok] at h, fun _ h => by simp [internTok] at h,
+      fun h => by simp [internTok] at h⟩
 
 theorem nextSwitch_spec (s1 : State) (ch nc : UInt8) (hch : peekAt s1.input s1.pos = ch)
     (hnc : peekAt s1.input (s1.pos + 1) = nc) (s : State) (hs : s = { s1 with pos := s1.pos + 1 }) :
@@ -433,24 +507,26 @@ theorem nextSwitch_spec (s1 : State) (ch nc : UInt8) (hch : peekAt s1.input s1.p
       by_cases e : (!isDigit nc) = true
       · rw [if_pos e]; subst hs; exact core_c1 hch (by decide)
       · rw [if_neg e]; subst hs
-        have h := readNumber_ok { s1 with pos := s1.pos + 1 } 46 s1.pos rfl hlt
+        have h := readNumber_ok { s1 with pos := s1.pos + 1 } 46 s1.pos rfl hlt (by rw [hch]; decide)
         exact ⟨h.2, Or.inr h.1⟩
   rw [if_neg c]; clear c
   by_cases c : isLetter ch = true
   · rw [if_pos c]; subst hs
     have h := readIdentifier_ok { s1 with pos := s1.pos + 1 } s1.pos rfl hlt
+      (by rw [hch]; intro h10; rw [h10] at c; revert c; decide)
     exact ⟨h.2, Or.inr h.1⟩
   rw [if_neg c]; clear c
   by_cases c : isDigit ch = true
   · rw [if_pos c]; subst hs
     have h := readNumber_ok { s1 with pos := s1.pos + 1 } ch s1.pos rfl hlt
+      (by rw [hch]; intro h10; rw [h10] at c; revert c; decide)
     exact ⟨h.2, Or.inr h.1⟩
   rw [if_neg c]; clear c
   subst hs
   refine ⟨rfl, Or.inr ⟨by simp, by simp; omega, by simp [internTok, Tok.WF], by simp [internTok],
     fun h => by simp [internTok] at h, fun _ h => by simp [internTok] at h,
     fun _ h => by simp [internTok] at h, fun _ h => by simp [internTok] at h,
-    fun _ _ => ⟨rfl, by simp [internTok, hch]⟩⟩⟩
+    fun _ _ => ⟨rfl, by simp [internTok, hch]⟩, fun h => by simp [internTok] at h⟩⟩
 
 theorem nextCore_spec (s1 : State) : CoreSpec s1 (nextCore s1) :=
   nextSwitch_spec s1 _ _ rfl rfl _ rfl
